@@ -63,3 +63,22 @@ def gen_int_any(rng, kind):
     if r < 0.95:
         return lim + rng.randrange(2, 1000)
     return rng.choice([2**31, 2**32, 2**63, 2**64 + 5, 253**4, 253**4 + 1, 10**30])
+
+
+class StringPool:
+    """A few strings per run that are written repeatedly (same value through different methods, modes
+    and writers): state that a writer or codec wrongly shares between calls only shows on a repeat."""
+
+    def __init__(self, rng, n=3, p_reuse=0.4):
+        self.rng = rng
+        self.p_reuse = p_reuse
+        self.items = [gen_string(rng, max_len=8, min_len=1) for _ in range(n)]
+
+    def get(self, rng, allow_y=True, allow_tilde=True, **kw):
+        if rng.random() < self.p_reuse:
+            s = rng.choice(self.items)
+            if (allow_y or "ÿ" not in s) and (allow_tilde or "~" not in s):
+                lo, hi = kw.get("min_len", 0), kw.get("max_len", 12)
+                if lo <= len(s) <= hi:
+                    return s
+        return gen_string(rng, allow_y=allow_y, allow_tilde=allow_tilde, **kw)
